@@ -75,6 +75,7 @@ ASSUMPTIONS = [
     "planning problem solutions is outside the quantifier ('lists of them' are non-empty)",
 ]
 TRUSTED = ["XML attribute write/read of the benchmark id (ElementTree) is the identity on these ASCII strings (sampled by the XML path)"]
+EXTRA_MODULES = ["CRProps.T13"]      # translator tie: Gen.SrcC13 (regenerated from the working tree every run) = hand model
 REQUIRED_BUCKETS = ["sid/map-only", "sid/config-only", "sid/behaviour-default-prediction", "sid/prediction-int",
                     "sid/prediction-list", "sid/cooperative", "sid/big-number", "sid/outside-domain", "sid/one-element-list",
                     "sid/ctor-error", "parse/malformed", "parse/well-formed", "sol/single", "sol/cooperative", "sol/xml-path",
